@@ -9,7 +9,7 @@ TECHNIQUE = ('runtime monitoring: the specification parser and the property pars
              'members; oracle = per-member snapshot equality (order, count, metadata) + comparison with the generating '
              'abstract trees + error-class agreement for files with exactly one invalid member')
 RULE = ('Files of 1-6 generated properties (every ending: bare topic, alias, predicate, within n s/ms; any subset and '
-        'order of # id / # title / # description; separators from space, newline, blank line, tab, CRLF) are parsed '
+        'order of # id / # title / # description; separators from space, newline, blank line, tab, CRLF, CR, form feed) are parsed '
         'as a whole and member by member; results must agree in count, order, structure and metadata, and each '
         'property must carry exactly its own annotations. Files with exactly one invalid member (type error, sanity '
         'error, duplicate key, unknown key, trailing annotation, syntax error, empty file) must raise the class the '
@@ -26,7 +26,7 @@ FLOORS = {
                  'members_compared': 200000},
 }
 BUDGET = {'quick': 12000, 'thorough': 600000}
-SEPS = (' ', '\n', '\n\n', '\t', '\r\n', '  \n  ')
+SEPS = (' ', '\n', '\n\n', '\t', '\r\n', '  \n  ', '\f', '\n\f\n', '\r')
 FAULTS = ('type', 'sanity-ref', 'sanity-dup', 'dup-key', 'unknown-key', 'trailing-annotation', 'syntax', 'empty')
 EXPECTED_CLASS = {'type': 'TypeError', 'sanity-ref': 'HplSanityError', 'sanity-dup': 'HplSanityError',
                   'dup-key': 'HplSyntaxError', 'unknown-key': 'HplSyntaxError', 'trailing-annotation': 'HplSyntaxError',
